@@ -31,6 +31,24 @@ def solver_fallback(chk):
                         "steps 0..6 (quick) / 0..12 (thorough) x store cadence 1..3 x t0 in {0,3}; contract clauses "
                         "evaluated natively against memoised reference iterates; distinct = (method, variant, steps, m, t0) "
                         "with steps > m", samples)
+        # ComputeGraph._index_state_var natively: the selected columns are exactly the variable's positions
+        import numpy as np
+        fn, _ = native.real_function("pyrates/backend/computegraph.py::ComputeGraph._index_state_var")
+        yrec = np.arange(5 * 7, dtype=float).reshape(5, 7)
+        n_idx = 0
+        for a in range(7):
+            for idx, want in [(a, yrec[:, a:a + 1])] + [((a, b), yrec[:, a:b]) for b in range(a + 1, 8)]:
+                n_idx += 1
+                try:
+                    got = np.asarray(fn(yrec, idx))
+                    ok = got.shape == want.shape and np.array_equal(got, want)
+                except Exception as exn:
+                    got, ok = f"{type(exn).__name__}: {exn}", False
+                if not ok:
+                    fails.append(dict(site="C03/ComputeGraph._index_state_var", clauses=["columns selected == positions of the variable"],
+                                      input=dict(idx=idx), observed=str(got)[:120], features=dict(idx=str(idx))))
+        chk.add_bounded("native-index-state-var", n_idx, n_idx, "real _index_state_var on a 5x7 record for every int index and every "
+                        "half-open pair: result == y[:, a:b]; distinct = indices", [dict(idx=[2, 5])])
         cache["r"] = fails
         return fails
     return run
@@ -54,7 +72,7 @@ def run_cases_for(chk):
     if chk.tier == "thorough":
         pick = pick + ("F1-chain-321", "F3-multi-input-wu", "F8-dense-4", "F5-names-r-rr")
     fam = [x for x in gen.c01_structured() if x[0] in pick]
-    grid = [(1.0, 0.1, None), (1.0, 0.1, 0.2), (0.9, 0.1, 0.3), (1.0, 0.05, 0.25), (0.5, 0.1, 0.5)]
+    grid = [(1.0, 0.1, None), (1.0, 0.1, 0.2), (0.9, 0.1, 0.3), (1.0, 0.05, 0.25), (0.5, 0.1, 0.5), (1.0, 0.025, 0.125), (0.45, 0.00125, 0.00375)]
     if chk.tier == "thorough":
         grid += [(2.0, 0.01, 0.05), (1.2, 0.1, 0.1), (1.5, 0.05, 0.15), (0.3, 0.1, 0.1), (0.1, 0.1, None)]
     cuts = [0.0, 0.25] if chk.tier == "quick" else [0.0, 0.25, 0.5, 0.07]
@@ -70,6 +88,13 @@ def run_cases_for(chk):
             for vec in (False, True):
                 cases.append(dict(tag=f"{t}/scipy-{method}", features=dict(f, solver="scipy", method=method), model=m, solver="scipy",
                                   method=method, T=1.0, dt=0.01, dts=0.1, vec=vec))
+    # delayed models (past(x, tau) with tau a multiple of the step): the Euler / Heun iterates of the DDE with the piecewise-linear
+    # history of the computed iterates — exact comparison
+    for t_, f_, m_ in gen.dde_models():
+        if t_.startswith(("H1", "H2", "H3", "H4", "H5")):
+            for solver in ("euler", "heun"):
+                cases.append(dict(tag=f"{t_}/{solver}", features=dict(f_, solver=solver, dde=True), model=m_, solver=solver, T=2.0, dt=0.05,
+                                  dts=0.1, vec=False, cutoff=0.0))
     # the listed known finding: T is not a multiple of the sampling step and one more sample is due than rows exist
     t, f, m = fam[0]
     for solver in ("euler", "heun"):
